@@ -14,6 +14,24 @@ def c06_classify(c, i):
     out.append("buf=" + ("1" if buf == "1" else "2-7" if int(buf) < 8 else "8+"))
     if skip == "1": out.append("shouldSkip")
     if base != "0": out.append("resume-offset")
+    if mx != "0":
+        # does a line over the limit occur (the skip / cut branches), and does it straddle reads?
+        hexes, k = [], 7
+        try:
+            for _ in range(int(nturns)):
+                n = int(c[k]); k += 1
+                hexes += [t for t in c[k:k + n] if t != "-"]; k += n
+            content = bytes.fromhex("".join(hexes))
+        except (ValueError, IndexError):
+            content = b""
+        m = int(mx)
+        lines = content.split(b"\n")[:-1]
+        if any(len(l) + 1 > m for l in lines):
+            out.append("oversize-line")
+            if any(len(l) + 1 > m and len(l) + 1 > int(buf) for l in lines):
+                out.append("oversize-line-straddles-reads")
+        if any(len(l) + 1 == m for l in lines):
+            out.append("line-exactly-at-limit")
     if i and i[0].isdigit():
         n = int(i[0])
         out.append("calls=" + ("0" if n == 0 else "1-3" if n < 4 else "4+"))
